@@ -272,6 +272,19 @@ func (p *Pool) Put(v any) {
 	p.mu.Unlock()
 }
 
+// Contains reports whether v (compared by identity) is waiting in the pool.
+func (p *Pool) Contains(v any) bool {
+	p.mu.Lock()
+	defer p.mu.Unlock()
+	p.sync()
+	for _, x := range p.items {
+		if x == v {
+			return true
+		}
+	}
+	return false
+}
+
 // Reset drops pooled items (between executions; harness use).
 func (p *Pool) Reset() { p.mu.Lock(); p.items = nil; p.mu.Unlock() }
 
